@@ -69,7 +69,8 @@ func GosymH_C09_save() {
 	kc := gosymNewKeep()
 	failK := gosym_Choice("fail-kth-write", gosym_Param("maxfail", 4)+1) // 0 = no failure
 	armed := true
-	kc.failNext = func(k int) bool { return armed && k == failK }
+	failAll := false
+	kc.failNext = func(k int) bool { return failAll || (armed && k == failK) }
 	fs, _ := (&Collection{}).FileSystem(nil, kc)
 	want := []gosymFile{
 		{"a b", gosym_Bytes("c0", 3, "any")},
@@ -141,6 +142,27 @@ func GosymH_C09_save() {
 				gosym_Assert(n == len(w.content) && gosym_BytesEq(buf[:n], w.content), "data-intact-after-failed-save")
 			}
 		}
+		// the Keep outage may last for several more save attempts (every write fails); each attempt must
+		// report the error and leave the data intact, and none may use up anything a later save needs
+		failAll = true
+		more := gosym_Choice("more-failing-saves", gosym_Param("morefail", 4)+1)
+		for i := 0; i < more; i++ {
+			_, errN := fs.MarshalManifest(".")
+			gosym_Assert(errN != nil, "save-fails-while-every-keep-write-fails")
+		}
+		if more > 0 {
+			for _, w := range want {
+				f, oerr := fs.Open(w.path)
+				gosym_Assert(oerr == nil, "data-readable-after-failed-save")
+				if oerr == nil {
+					buf := make([]byte, 8)
+					n, _ := io.ReadFull(f, buf)
+					gosym_Assert(n == len(w.content) && gosym_BytesEq(buf[:n], w.content), "data-intact-after-failed-save")
+				}
+			}
+			gosym_Reach("repeated-failed-saves")
+		}
+		failAll = false
 		armed = false
 		mt2, err2 := fs.MarshalManifest(".")
 		gosym_Assert(err2 == nil, "later-save-succeeds")
